@@ -132,6 +132,14 @@ CHECKS = {
         text="5 server sets (1..5 servers, TCP and UNIX mixed) x all 256 subsets of an 8-key universe (str, bytes, (server_key, key) pairs; reduced for some configurations in quick) plus sets of 10/25/50 keys x key_prefix {none, p:} x use_pooling; script per case: set_many, get_many, gets_many, per key get/gets/touch, set/incr/get_many/delete/get, delete_many; plus the aliasing scenario (same item key plain and under a server key, both orders). Each key's command must reach exactly once the server the rule assigns to its routing key; get_many == per-key gets; results keyed by the caller's inner keys.",
         note=TB + "A str key and the bytes key with the same text are different routing keys (the rule formats the raw key).",
     ),
+    "C16": dict(
+        engine="input-enumerator",
+        level="exploration",
+        technique="differential bounded-exhaustive enumeration of operations x keyword-argument grid x configuration grid x server states across client stacks, each on a fresh reference server; parsed command lists, results, socket options and timeouts compared with a plain Client",
+        design_ref="DESIGN.md section 3 / C16",
+        text="12 configurations (key_prefix bytes/str, default_noreply, encoding, allow_unicode_keys, serde, pickle serde, legacy serializer pair, legacy deserializer only, timeouts, no_delay, a combination) x 3 server states (miss, numeric hit, text hit with flags) x ~200 calls (every key-addressed operation with every keyword-argument combination incl. cas match/mismatch, defaults, dict-style access) x {PooledClient, HashClient, pooled HashClient, RetryingClient attempts 1 and 2}: same parsed commands at the server (repeated for a raising call under 2 attempts), same result value and type or exception class, same socket options and timeouts in force as Client.",
+        note=TB + "Arguments by keyword only (positional orders differ between the classes); packetisation ignored.",
+    ),
 }
 
 PENDING = "check not built yet in this session; planned engine and oracle are in DESIGN.md section 3"
@@ -142,7 +150,7 @@ ENGINES = [
      "serves_properties": ["C05", "C09", "C11", "C13"],
      "kind_free_text": "explicit-state BFS: a state is the event history reaching it, rebuilt on fresh real objects; canonical form de-duplicates; every transition runs the implementation"},
     {"name": "input-enumerator", "path": "checks/c02.py, checks/c20.py (and c14, c15, c17, c18)",
-     "serves_properties": ["C02", "C12", "C14", "C15", "C17", "C18", "C20"],
+     "serves_properties": ["C02", "C12", "C14", "C15", "C16", "C17", "C18", "C20"],
      "kind_free_text": "nested loops over a finite, explicitly listed input space; the real function is called once per element and compared with an independent reference"},
     {"name": "segmentation-enumerator", "path": "checks/c03.py", "serves_properties": ["C03"],
      "kind_free_text": "bounded-exhaustive enumeration of recv() segmentations of reference reply streams"},
